@@ -13,10 +13,12 @@ mkdir -p "$(dirname "$BD")"
 exec 9>"$BD.lock"
 flock 9
 CF="-DDISPATCH_VERIF=1 -Wno-error -Wno-unused-variable -Wno-static-in-inline"
-if [ "$FLAV" = asan ]; then CF="$CF -fsanitize=address,undefined -fno-omit-frame-pointer -fno-sanitize=alignment,function"; fi
+CC=clang-16; CXX=clang++-16
+# clang-16 ships without compiler-rt on this image: the sanitizer flavour uses clang-15 (same front end family)
+if [ "$FLAV" = asan ]; then CC=clang-15; CXX=clang++-15; CF="$CF -fsanitize=address,undefined -fno-omit-frame-pointer -fno-sanitize=alignment,function"; fi
 if [ ! -f "$BD/build.ninja" ]; then
   rm -rf "$BD"
-  cmake -G Ninja -S "$REPO" -B "$BD" -DCMAKE_C_COMPILER=clang-16 -DCMAKE_CXX_COMPILER=clang++-16 \
+  cmake -G Ninja -S "$REPO" -B "$BD" -DCMAKE_C_COMPILER=$CC -DCMAKE_CXX_COMPILER=$CXX \
     -DCMAKE_BUILD_TYPE=RelWithDebInfo -DBUILD_TESTING=OFF -DBUILD_SHARED_LIBS=OFF \
     -DCMAKE_C_FLAGS="$CF" -DCMAKE_CXX_FLAGS="$CF" >"$BD.cmake.log" 2>&1 || { cat "$BD.cmake.log" >&2; exit 3; }
 fi
